@@ -119,3 +119,13 @@ check("C17",
       "Trusted: z3; exp/log axioms. Bounds: path length <= 3/4, <= 2 assets. Outside: LookBack, Rainbow, rate payoffs, CDS (C19). Known finding: Asian.value "
       "raises on a one-dimensional path.",
       TECH, "DESIGN.md section 3 C17")
+
+check("C16",
+      "Bounded model checking of the real Euler recursions (MarkovChainSDE.simulate_one_path, CouplingSDE.simulate_one_path_with_coupling) on a scripted "
+      "symbolic driver path (times, cumulative jumps and Brownian values, drifts) with constant, diag(x) and affine coefficient functions: every returned "
+      "state equals the Euler recursion step by step, closed forms for constant and diagonal coefficients, both coupled components with their own driver "
+      "increments and drifts; real df of the rate models on symbolic curves: df(0)=1, positive, non-increasing, value at each tenor = product of the period "
+      "accruals (continuity), df of the exponential and SDE base models.",
+      "Trusted: z3; simulators built with __new__ around a scripted driver path; exp axioms. Bounds: <= 2/3 steps, dimensions <= 2, <= 2/3 rates. Outside: "
+      "Libor drift term (dblquad), sigma(t) schedules of the Libor/forward coefficient functions, epsilon = h^BG hand-over.",
+      TECH, "DESIGN.md section 3 C16")
